@@ -47,6 +47,8 @@ def cases(tier, seed):
         for ik in idxs:
             for obs in ("obs", "noobs"):
                 out.append(f"{lay}/{ik}/{obs}/{n}")
+    out.append("billing-agg/monthly/obs/3")
+    out.append("billing-agg/bimonthly/obs/3")
     return out
 
 
@@ -98,9 +100,63 @@ def replay_predict(inp):
 REPLAY = {"predict": replay_predict}
 
 
+def replay_agg(inp):
+    from .c05 import _billing_data
+    idx = pd.date_range("2021-01-30", periods=inp["n"], freq="D", tz="US/Pacific")
+    df = F.float_frame(idx, inp["env"], inp["ts"], inp["os"])
+    m = F.model("single", BillingModel, tz="US/Pacific")
+    daily = m.predict(_billing_data(df), aggregation=None)
+    agg = m.predict(_billing_data(df), aggregation=inp["agg"])
+    both = np.isfinite(daily["observed"].to_numpy(dtype=float)) & np.isfinite(daily["predicted"].to_numpy(dtype=float))
+    so, sp = float(np.nansum(agg["observed"].to_numpy(dtype=float))), float(np.nansum(agg["predicted"].to_numpy(dtype=float)))
+    rw = float(np.sum((daily["observed"].to_numpy(dtype=float) - daily["predicted"].to_numpy(dtype=float))[both]))
+    bad = abs((so - sp) - rw) > 1e-9 * max(1.0, abs(so) + abs(sp))
+    return bad, f"aggregated sum(observed)-sum(predicted) = {so - sp}, row-wise savings over days that have both = {rw} (observed total {so})"
+
+
+REPLAY["agg"] = replay_agg
+
+
+def run_agg(case, agg, n):
+    """BillingModel.predict with aggregation: observed and predicted stay masked together in the period totals"""
+    import opendsm.eemeter.models.billing.model as bmod
+    from symv.carriers import patched, symnp
+    from .c05 import _billing_data
+    idx = pd.date_range("2021-01-30", periods=n, freq="D", tz="US/Pacific")
+    case.inputs = [z3.Real(f"T{i}") for i in range(n)] + [z3.Real(f"o{i}") for i in range(n)]
+
+    def run():
+        m = F.model("single", BillingModel, tz="US/Pacific")
+        df, ts, os_ = F.sym_frame(idx, True)
+        daily = m.predict(_billing_data(df), aggregation=None)
+        out = m.predict(_billing_data(df), aggregation=agg)
+        return ts, os_, daily, out
+
+    with R.symbolic_daily(), patched(bmod, np=symnp):
+        paths = case.explore(run)
+    for p in paths:
+        if p.outcome != "ret":
+            case.rep["harness_errors"].append(f"BillingModel.predict raised {p.value!r}")
+            continue
+        ts, os_, daily, out = p.value
+        rp = ("agg", (lambda s: lambda mdl: dict(agg=agg, n=n, env=model_env(mdl, case.inputs), ts=s[0], os=s[1]))((ts, os_)))
+        do, dp = cells(daily["observed"]), cells(daily["predicted"])
+        rw = sum((to_real(lift(o)) - to_real(lift(q)) for o, q in zip(do, dp) if F.finite(o) and F.finite(q)), z3.RealVal(0))
+        so = sum((to_real(lift(v)) for v in cells(out["observed"]) if F.finite(v)), z3.RealVal(0))
+        sp = sum((to_real(lift(v)) for v in cells(out["predicted"]) if F.finite(v)), z3.RealVal(0))
+        case.prove(p, so - sp == rw, "aggregated sum(observed) - sum(predicted) == row-wise savings over the days that have both", replay=rp)
+        for i in range(n):
+            case.regime("temperature missing, usage present", ts[i] == "nan" and os_[i] == "val")
+            case.regime("usage missing, temperature present", ts[i] == "val" and os_[i] == "nan")
+            case.regime("both present", ts[i] == "val" and os_[i] == "val")
+    case.sample(dict(aggregation=agg, rows=n, paths=len(paths)))
+
+
 def run_case(case: Case, name: str):
     lay, ik, obs, n = name.split("/")
     n = int(n)
+    if lay == "billing-agg":
+        return run_agg(case, ik, n)
     with_obs = obs == "obs"
     idx = F.index_catalogue(ik, n)
     names = [f"T{i}" for i in range(n)] + [f"o{i}" for i in range(n)]
